@@ -23,7 +23,10 @@ RULE = ("linecol: all texts of length <= 4 (quick) / 5 (thorough) over the 7-sym
         "final line feed (there the error must be on the fault line); a multi-line #bankdef block (main or included banks.asm, `name = v` or "
         "`#name v` fields) gets an unknown / duplicate / ill-valued field at every index and the error must be that field's name token; the ISA "
         "has an asm-block rule and a rule calling a user function with an assertion (function next to the rules or in the library file) so that "
-        "message trees nest across two or three files, and every message is checked as print_all shows it inside its whole tree (file name, "
+        "message trees nest across two or three files; block comments (single-line, or opened on earlier lines and ending on the fault line) "
+        "stand in front of the faulty statement and the first error must lie within the statement's own tokens; include chains 1..4 deep with "
+        "the #include of a missing file in the file at every depth (error = the file-name token of that #include, in the file containing it); "
+        "message trees are checked as a whole: and every message is checked as print_all shows it inside its whole tree (file name, "
         "line:col, excerpt lines against ITS OWN file); non-trivial = distinct (kind, fault text, decoration, context, included?, "
         "multi-byte character before the fault in the same file). monitor: every message of 1..4-edit token mutants of the corpus; "
         "non-trivial = distinct (file, mutant) producing at least one located message after a multi-byte character.")
@@ -288,6 +291,15 @@ def fault_verdict(case, r, known):
         return ("fault-wrong-line-after" if m["start"] >= hi else "fault-wrong-line-before" if m["start"] < lo else "fault-span-spills-over"), \
             "the first error is located at %s:%d:%d (bytes %d..%d), the fault is on line %d" % (
                 efile, l + 1, c + 1, m["start"], m["end"], eline + 1)
+    sr = case.get("stmt_range")
+    if sr is not None and (efile, eline) == (case["file"], case["line"]):
+        # the error points at the faulty statement's own tokens, not at the comment or blanks in front of / behind it
+        s0 = lo + sr[0]
+        if not (s0 <= m["start"] and m["end"] <= s0 + sr[1]):
+            l, c = g.spec_linecol(b, m["start"])
+            tl, tc = g.spec_linecol(b, s0)
+            return "fault-outside-statement", "the first error is located at %s:%d:%d (bytes %d..%d), the faulty statement `%s` is at %d:%d (bytes %d..%d)" % (
+                efile, l + 1, c + 1, m["start"], m["end"], case["stmt"], tl + 1, tc + 1, s0, s0 + sr[1])
     if case.get("token") is not None:
         # a faulty field of a multi-line block: the error is the field's own name token, not the block or an earlier field
         ts = lo + case["token"][0]
@@ -309,7 +321,7 @@ def fault_verdict(case, r, known):
 def stream_fault(chk, lim, model, bins):
     quick = chk.tier == "quick"
     rng = chk.rng.fork("fault")
-    nprog = 2500 if quick else 20000
+    nprog = 2000 if quick else 20000
     progs = [g.gen_program(rng.fork("p%d" % i)) for i in range(nprog)]
     cases = []
     for i, p in enumerate(progs):
@@ -318,6 +330,12 @@ def stream_fault(chk, lim, model, bins):
                 c = g.inject(rng.fork("f%d/%s/%d" % (i, k, rep)), p, k)
                 if c:
                     cases.append(c)
+    # include chains root -> A -> B ...: a missing file included from the file at depth d (0 = the root)
+    for i in range(600 if quick else 6000):
+        bp, c = g.gen_include_chain(rng.fork("chain%d" % i))
+        progs.append(bp)
+        cases.append(c)
+    nprog = len(progs)
     lines = [p.wire() for p in progs] + [c["prog"].wire() for c in cases]
     res = {p: run_isolating([bins[p] + "/linecol"], lines) for p in ("debug", "release")}
     known = {f["class"]: f for f in vlib.known_findings() if f["property"] == "C13" and f["status"] == "known"}
@@ -326,8 +344,9 @@ def stream_fault(chk, lim, model, bins):
     for k in g.KINDS:
         dist["kind_" + k] = 0
     for w in ("none", "before", "after", "both"):
-        dist["nonascii_on_line_" + w] = 0
         dist["nonascii_context_" + w] = 0
+    for w in ("none", "before", "after", "both", "multiline_before", "multiline_both"):
+        dist["nonascii_on_line_" + w] = 0
     nohook = False
     # --- baselines must assemble cleanly (otherwise the "single fault" premise is void)
     for i, p in enumerate(progs):
@@ -351,6 +370,9 @@ def stream_fault(chk, lim, model, bins):
         dist["fault_in_included_file"] += 1 if c["included"] else 0
         dist["crlf"] += 1 if q.eol == "\r\n" else 0
         dist["open_ended_directive_faults"] += 1 if c["open_ended"] else 0
+        if "include_depth" in c:
+            k3 = "include_missing_in_file_at_depth_%d" % c["include_depth"]
+            dist[k3] = dist.get(k3, 0) + 1
         if str(c.get("situation", "")).startswith("bankdef_"):
             dist[c["situation"]] = dist.get(c["situation"], 0) + 1
             dist["bankdef_field_not_first"] = dist.get("bankdef_field_not_first", 0) + (1 if c["field_index"] > 0 else 0)
